@@ -105,6 +105,73 @@ type caseRun struct {
 	stallMs  int
 	started  bool
 	finished bool
+	// scenario "hold": peers keep their good replies back until `hold` requests are in flight
+	hold     int
+	inflight int32
+	maxInfl  int32
+	lastReq  int64
+	holdC    chan struct{}
+	holdOnce sync.Once
+}
+
+// holdWait is called by a scripted peer before it sends a good reply.
+func (c *caseRun) holdWait() {
+	if c.hold <= 0 {
+		return
+	}
+	n := atomic.AddInt32(&c.inflight, 1)
+	for {
+		m := atomic.LoadInt32(&c.maxInfl)
+		if n <= m || atomic.CompareAndSwapInt32(&c.maxInfl, m, n) {
+			break
+		}
+	}
+	atomic.StoreInt64(&c.lastReq, time.Now().UnixNano())
+	select {
+	case <-c.holdC:
+	case <-c.release:
+	}
+	atomic.AddInt32(&c.inflight, -1)
+}
+
+// holdWatch opens the hold once `hold` requests are in flight and every other height worker has given
+// up (the peers are at their concurrency limit, the rest ran out of retries), or when nothing new has
+// arrived for a long while (the expected number of concurrent requests was not reached): the run then
+// still ends and is judged on the property alone.
+func (c *caseRun) holdWatch(quiet time.Duration) {
+	if c.hold <= 0 {
+		return
+	}
+	go func() {
+		for {
+			select {
+			case <-c.holdC:
+				return
+			case <-c.release:
+				return
+			case <-time.After(20 * time.Millisecond):
+			}
+			if int(atomic.LoadInt32(&c.inflight)) >= c.hold {
+				exits := 0
+				c.mu.Lock()
+				for _, l := range c.mainLog {
+					if len(l) > 0 && l[len(l)-1].point == "exit" {
+						exits++
+					}
+				}
+				c.mu.Unlock()
+				if exits >= c.cfg.nh-c.hold {
+					c.holdOnce.Do(func() { close(c.holdC) })
+					return
+				}
+			}
+			last := atomic.LoadInt64(&c.lastReq)
+			if last != 0 && time.Since(time.Unix(0, last)) > quiet {
+				c.holdOnce.Do(func() { close(c.holdC) })
+				return
+			}
+		}
+	}()
 }
 
 var caseCounter int64
@@ -124,7 +191,8 @@ func newCase(r *rig, cfg config, rnd *rand.Rand, stallMs int) (*caseRun, []strin
 	}
 	c := &caseRun{rig: r, cfg: cfg, release: make(chan struct{}), modelOf: map[peer.ID]int{},
 		mainLog: map[int][]arrival{}, reLog: map[int][]arrival{}, reCur: map[int]int{}, workers: map[int]*wk{},
-		coord: make(chan arrival, 2), coordRel: make(chan struct{}, 1), doneC: make(chan struct{}), stallMs: stallMs}
+		coord: make(chan arrival, 2), coordRel: make(chan struct{}, 1), doneC: make(chan struct{}), stallMs: stallMs,
+		holdC: make(chan struct{})}
 	c.base = atomic.AddInt64(&caseCounter, 1)*1000 + int64(rnd.Intn(500))
 	perm := rnd.Perm(len(r.nodes))
 	lat := map[peer.ID]time.Duration{}
@@ -691,6 +759,13 @@ func (d *drv) Apply(s core.Step) (any, any, error) {
 			return nil, nil, err
 		}
 		d.c = c
+		if s.Bool("free") {
+			// scenario run: free-running goroutines, optionally with peers holding their replies
+			c.hold = s.Int("hold")
+			c.holdWatch(time.Duration(d.env.OptInt("quiet_ms", 30000)) * time.Millisecond)
+			c.start(d.rig.newProtocol, pids, false)
+			return "-", nil, nil
+		}
 		c.start(d.rig.newProtocol, pids, true)
 		for h := 1; h <= cfg.nh; h++ {
 			select {
@@ -866,6 +941,50 @@ func (d *drv) Signature(b *core.Behaviour, idx int, field string, expected, obse
 	return ""
 }
 
+// scenario runs hand-written (Start free/hold, TaskDone) behaviours and prints verdict and counters as JSON.
+func scenario(env *core.Env, args []string) int {
+	if len(args) < 1 {
+		fmt.Fprintln(os.Stderr, "usage: scenario <behaviours.ndjson>")
+		return 2
+	}
+	bs, err := core.ReadBehaviours(args[0])
+	if err != nil {
+		fmt.Fprintln(os.Stderr, err)
+		return 2
+	}
+	var out []map[string]any
+	d := &drv{}
+	for _, b := range bs {
+		if err := d.Reset(env, b); err != nil {
+			fmt.Fprintln(os.Stderr, err)
+			return 2
+		}
+		var last any
+		for _, s := range b.Steps {
+			ret, _, err := d.Apply(s)
+			if err != nil {
+				fmt.Fprintln(os.Stderr, b.ID, err)
+				d.Close()
+				return 2
+			}
+			last = ret
+		}
+		c := d.c
+		res := map[string]any{"id": b.ID, "ret": last, "signature": "C35|" + d.detail}
+		if c != nil {
+			c.mu.Lock()
+			res["rechecked"] = len(c.reLog)
+			c.mu.Unlock()
+			res["max_inflight"] = atomic.LoadInt32(&c.maxInfl)
+			res["nontrivial"] = len(c.reLog) > 0
+		}
+		out = append(out, res)
+		d.Close()
+	}
+	fmt.Println("@@SCENARIO " + core.J(out))
+	return 0
+}
+
 func main() {
 	if os.Getenv("VERIF_DL_LOG") == "" {
 		clog.SetLogLevel("crit")
@@ -874,5 +993,6 @@ func main() {
 		Name:      "Download",
 		NewDriver: func() core.Driver { return &drv{} },
 		Recorders: map[string]core.Recorder{"default": record},
+		Extra:     map[string]func(*core.Env, []string) int{"scenario": scenario},
 	})
 }
